@@ -443,6 +443,17 @@ class Check:
                 s = s[:600] + '...'
             self.cov['samples'].append(s)
 
+    def sensitivity(self, module, cfg, what, workers=4, timeout=600, xmx='3g'):
+        """a DEFECT VARIANT of the model (a constant switches the defective rule on) must violate an invariant: shows that the
+        invariants of the real configuration are not vacuous.  Recorded in the evidence; never a verdict about the code."""
+        r = tlc(module, cfg, workers=workers, timeout=timeout, xmx=xmx)
+        m = re.search(r'(Invariant|property|Property) (\S+) is violated', r['out']) or re.search(r'Action property (\S+)', r['out'])
+        got = m.group(0) if m else ('no violation' if r['ok'] else 'TLC ended without a verdict')
+        self.cov.setdefault('model_sensitivity', {})[cfg] = {'variant': what, 'result': got}
+        if not m:
+            log('  WARNING: defect variant %s/%s does not violate anything (%s)' % (module, cfg, got))
+        return bool(m)
+
     def violation(self, key, text, replay_payload):
         """key identifies the specific failing input/history (matched against known_findings.txt)"""
         for k in known_findings():
